@@ -24,7 +24,7 @@ from workflows.context.state_store import InMemoryStateStore  # noqa: E402
 
 HEADER_IMPORTS = """From Coq Require Import List ZArith Bool.
 Import ListNotations.
-From WF Require Import Model.StateStore Model.StateSched.
+From WF Require Import Model.StateStore Model.StateSched Model.StateSchedFifo.
 Open Scope Z_scope.
 """
 
@@ -62,19 +62,25 @@ def gcop(o):
     raise core.CheckError("statesched: unknown op %r" % (o,))
 
 
-def case_expr(store, locks, init, ops, log, fin):
+def case_expr(store, locks, init, ops, log, fin, fifo=None):
+    """Guard-lock model replaying the observed segment order; with `fifo` (the driver's pokes interleaved
+    with the segments each poke made run) the FIFO-lock model instead."""
     mk = "(%s %s)" % ("mem_task" if store == "memory" else "sql_task", glist(gbool(b) for b in locks))
-    return "check_sched_case %s %s %s %s %s" % (
-        mk, S.gsobj(init), glist(gcop(o) for o in ops), glist("%d%%nat" % i for i in log), S.gsobj(fin))
+    return "%s %s %s %s %s %s" % (
+        "check_sched_case" if fifo is None else "check_fifo_case",
+        mk, S.gsobj(init), glist(gcop(o) for o in ops),
+        glist("%d%%nat" % i for i in (log if fifo is None else fifo)), S.gsobj(fin))
 
 
 # ---- real execution -------------------------------------------------------------------------------
 def run_real(make_store, init, ops, sched):
-    """Returns (log of executed segments, final state dump, per-op outcome)."""
+    """Returns (log of executed segments, final state dump, per-op outcome, fifo schedule).
+    fifo schedule: every driver poke, followed by the segments that ran before the loop went quiet
+    (the poked task's own segment first, then tasks the lock was handed to)."""
     async def go():
         store = make_store()
         await store.set_state(S.build_obj(init[0], init[1]))
-        log, outcome = [], {}
+        log, outcome, fifo = [], {}, []
         gates = {i: [asyncio.Event() for _ in range(len(o[1]) - 1)] for i, o in enumerate(ops) if o[0] == "edit"}
         opened = {i: 0 for i in gates}
         tasks = {}
@@ -114,22 +120,27 @@ def run_real(make_store, init, ops, sched):
                 gates[i][opened[i]].set()
                 opened[i] += 1
 
-        for i in sched:
+        async def drive(i):
+            k = len(log)
             poke(i)
             await vloop.settle()
+            ran = log[k:]
+            fifo.extend(ran if i in ran else [i] + ran)
+
+        for i in sched:
+            await drive(i)
         for _ in range(64):                      # flush: let everything finish
             if len(tasks) == len(ops) and all(t.done() for t in tasks.values()):
                 break
             for i in range(len(ops)):
-                poke(i)
-            await vloop.settle()
+                await drive(i)
         else:
             raise core.CheckError("statesched: operations did not finish (deadlock?)")
         if hasattr(store, "_state"):
             fin = S.dump_state(store._state)
         else:
             fin = S.dump_state(await store.get_state())
-        return log, fin, outcome
+        return log, fin, outcome, fifo
 
     return vloop.run(go(), auto=False)
 
